@@ -34,9 +34,11 @@ def graph_for_transforms():
 
 
 def compare_after(argsA, argsB, beforeA, beforeB, what):
+  """argsA/argsB may be followed by the graph-valued results of the call: the
+  combined root also checks sharing between results and arguments."""
   cA, cB = G.canon(tuple(argsA)), G.canon(tuple(argsB))
-  require(cA == cB, lambda: f'{what}: argument graphs differ after the call\n'
-          f' eager       {cA}\n transformed {cB}')
+  require(cA == cB, lambda: f'{what}: argument (and result) graphs differ '
+          f'after the call\n eager       {cA}\n transformed {cB}')
   nA, vA = M.numbering(argsA)
   nB, vB = M.numbering(argsB)
   for kind, afterA, afterB, befA, befB in (
@@ -62,7 +64,8 @@ def jit_case():
                          M.program_strategy(structural=True, min_size=0,
                                             max_size=2)),
                min_size=1, max_size=3),                          # calls
-      st.sampled_from(['jit', 'remat', 'jit_remat']))
+      st.sampled_from(['jit', 'remat', 'jit_remat']),
+      M.return_strategy())
 
 
 @clause('jit_family', strategy=jit_case, quick=650, thorough=12000,
@@ -71,13 +74,16 @@ def jit_case():
         'nodes reachable from each other) x mutation program (value updates, '
         'add/delete/rebind/swap attributes, new Variables/Modules/statics) x '
         'nnx.jit / nnx.remat / jit(remat) x 1-3 calls of the same transformed '
-        'function with eager structure edits between calls; result, canonical '
-        'form of all arguments, and object identity of caller objects equal '
+        'function with eager structure edits between calls x graph-valued '
+        'results (0-2 objects that were reachable before the program ran, '
+        'possibly detached by it, bare or inside a newly created holder); '
+        'result, canonical form of all arguments and results together, and '
+        'object identity of caller objects equal '
         'the eager run on a twin graph; unchanged consecutive calls do not '
         'retrace; non-trivial = program has a structural edit, or arguments '
         'alias')
 def jit_family(case, ctx):
-  spec, arg_idx, prog, calls, tr = case
+  spec, arg_idx, prog, calls, tr, ret = case
   rA, nodesA, _ = G.build(spec)
   rB, nodesB, _ = G.build(spec)
   argsA = [nodesA[i % len(nodesA)] for i in arg_idx]
@@ -85,10 +91,10 @@ def jit_family(case, ctx):
 
   def f(*a):
     TRACES.append(1)
-    return M.run_program(prog, a[:-1], a[-1])
+    return M.run_program(prog, a[:-1], a[-1], ret)
 
   def f_eager(*a):
-    return M.run_program(prog, a[:-1], a[-1])
+    return M.run_program(prog, a[:-1], a[-1], ret)
 
   with sut('wrap'):
     if tr == 'jit':
@@ -101,15 +107,18 @@ def jit_family(case, ctx):
   for ci, (xv, oob) in enumerate(calls):
     x = jnp.asarray(float(xv), jnp.float32)
     beforeA, beforeB = M.numbering(argsA), M.numbering(argsB)
-    yA = f_eager(*argsA, x)
+    yA, outA = f_eager(*argsA, x)
     n0 = len(TRACES)
     with sut(f'{tr} call {ci}'):
-      yB = tf(*argsB, x)
+      yB, outB = tf(*argsB, x)
     traced = len(TRACES) - n0
     require(np.allclose(np.asarray(yA), np.asarray(yB), rtol=1e-6, atol=1e-6),
             lambda: f'call {ci}: {tr} returned {np.asarray(yB)}, eager '
             f'{np.asarray(yA)}')
-    compare_after(argsA, argsB, beforeA, beforeB, f'{tr} call {ci}')
+    require(len(outA) == len(outB), lambda: f'call {ci}: {len(outB)} graph '
+            f'results, eager {len(outA)}')
+    compare_after(list(argsA) + list(outA), list(argsB) + list(outB),
+                  beforeA, beforeB, f'{tr} call {ci}')
     if tr == 'jit' and ci > 0 and not prev_struct_change:
       require(traced == 0, lambda: f'call {ci}: identical structure as the '
               f'previous call but the function was traced again ({traced}x)')
@@ -122,7 +131,8 @@ def jit_family(case, ctx):
       arg_idx[1] % len(nodesA))
   ctx.note(labels=[tr, f'calls{len(calls)}',
                    'structural' if M.is_structural(prog) else 'values',
-                   'same-arg-twice' if alias else 'distinct-args'],
+                   'same-arg-twice' if alias else 'distinct-args',
+                   f'ret{len(ret)}'] + sorted({f'ret:{k}' for k, _ in ret}),
            nontrivial=M.is_structural(prog) or alias)
 
 
